@@ -356,7 +356,7 @@ pub fn run_scenario(sc: &Value) -> Vec<Value> {
         release[c].store(true, Ordering::SeqCst);
     }
     // wait for completion (watchdog: timeout + 6 s)
-    let watchdog = Duration::from_secs(shutdown_s + 6);
+    let watchdog = Duration::from_secs(shutdown_s.min(20) + 6);
     let done = wait_until(watchdog, || log.has(|v| v["e"] == "ServerResolved"));
     log.emit(json!({"e": "Watchdog", "serverResolved": done}));
     if sc["late_connect"].as_bool().unwrap_or(false) && done {
